@@ -20,7 +20,13 @@ pub enum Error {
 
 impl fmt::Display for Error {
     fn fmt(&self, f: &mut fmt::Formatter<'_>) -> fmt::Result {
-        write!(f, "{:?}", self)
+        match self {
+            // JSON errors are wrapped on every level of the deserialized view tree,
+            // debug formatting would escape the nested message again on each level
+            // and its size would grow exponentially with the depth of the document
+            Error::Json(error) => write!(f, "{}", error),
+            _ => write!(f, "{:?}", self),
+        }
     }
 }
 
